@@ -454,12 +454,14 @@ lyd_parser_set_data_flags(struct lyd_node *node, struct lyd_meta **meta, struct 
 
             /* delete the metadata */
             if (meta != &node->meta) {
-                *meta = (*meta)->next;
+                /* the list is not connected to the node yet, unlink the item from it */
+                if (prev_meta) {
+                    prev_meta->next = next_meta;
+                } else {
+                    *meta = next_meta;
+                }
             }
             lyd_free_meta_single(meta2);
-            if (prev_meta) {
-                prev_meta->next = next_meta;
-            }
 
             /* update dflt flag for all parent NP containers */
             lyd_np_cont_dflt_set(lyd_parent(node));
